@@ -483,8 +483,9 @@ class C15(Property):
         n = len(VNODE_IDX)
         rows = []
         for v, row in zip(case["nodes"], obs["rx"]):
-            adds = clist(["(%d, %s)" % (i, hx(t)) for i, t in zip(VNODE_IDX, row[3:3 + n])])
-            rems = clist(["(%d, %s)" % (i, hx(t)) for i, t in zip(VNODE_IDX, row[3 + n:3 + 2 * n])])
+            seen = [q for q in range(n) if row[3 + q] != "-" and row[3 + n + q] != "-"]      # "-": not observed
+            adds = clist(["(%d, %s)" % (VNODE_IDX[q], hx(row[3 + q])) for q in seen])
+            rems = clist(["(%d, %s)" % (VNODE_IDX[q], hx(row[3 + n + q])) for q in seen])
             rows.append("mkPval %s %s %s %s %s %s" % (coq_gval(v), hx(row[0]), hx(row[1]), hx(row[2]), adds, rems))
         return "ReprCase %s" % clist(rows)
 
